@@ -1,6 +1,7 @@
 (* EditProofsEx.v -- C11: decidable checkers for the hypotheses, and the concrete non-vacuity examples. *)
 From LV Require Import Base.Bytes Model.Obj Model.DocQ Model.PageTree Model.Traverse Model.Edit
-  Spec.RenumberSpec Proofs.RenumberProofsMap Proofs.EditProofs.
+  Spec.RenumberSpec Proofs.RenumberProofsMap Proofs.EditProofs Proofs.EditProofsBm Proofs.EditProofsOutline.
+From LV Require Model.Outline.
 
 Definition alloc_okb (d : doc) : bool :=
   forallb (fun io : oid * obj => (fst (fst io) <=? d_max_id d)%N) (d_objects d).
@@ -66,3 +67,31 @@ Lemma ex_run :
   map fst (d_objects (run_ops O0 ex_doc ex_ops)) = [(1, 0); (2, 0); (4, 0); (5, 0); (6, 0)]%N /\
   d_max_id (run_ops O0 ex_doc ex_ops) = 10%N.
 Proof. vm_compute. auto. Qed.
+
+(* ---------- the whole state: a nested bookmark forest (1 > 2 > 3, and 4), build_outline, then allocations and a save ---------- *)
+Definition ex_col : bytes * bytes * bytes := (bs "0", bs "0.5", bs "1").
+Definition ex_sops : list sop :=
+  [SAddBookmark [65] 0 ex_col (3, 0) None; SAddBookmark [66] 1 ex_col (4, 0) (Some 1); SDoc NewObjectId;
+   SAddBookmark [67] 2 ex_col (4, 0) (Some 2); SAddBookmark [68] 0 ex_col (3, 0) None;
+   SBuildOutline; SDoc (AddObject (OInt 5)); SDoc (Save true); SDoc NewObjectId]%N.
+
+Lemma ex_s_hyps :
+  doc_wf (Outline.base (Outline.fresh_bdoc ex_doc)) /\ alloc_ok (Outline.base (Outline.fresh_bdoc ex_doc)) /\
+  sprog_dom O0 (Outline.fresh_bdoc ex_doc) ex_sops /\ s_no_renumber ex_sops.
+Proof.
+  split; [apply doc_wfb_ok; vm_compute; reflexivity|].
+  split; [apply alloc_okb_ok; vm_compute; reflexivity|].
+  split.
+  - cbn [sprog_dom ex_sops sop_dom op_dom]. repeat split.
+  - cbn. tauto.
+Qed.
+
+Lemma ex_s_run :
+  s_handed_out O0 (Outline.fresh_bdoc ex_doc) ex_sops =
+    [(8, 0); (9, 0); (10, 0); (11, 0); (12, 0); (13, 0); (14, 0); (15, 0); (16, 0); (17, 0); (18, 0); (20, 0)]%N /\
+  map fst (d_objects (Outline.base (srun_ops O0 (Outline.fresh_bdoc ex_doc) ex_sops))) =
+    [(1, 0); (2, 0); (3, 0); (4, 0); (5, 0); (6, 0); (7, 0); (9, 0); (10, 0); (11, 0); (12, 0); (13, 0); (14, 0); (15, 0);
+     (16, 0); (17, 0); (18, 0)]%N /\
+  d_max_id (Outline.base (srun_ops O0 (Outline.fresh_bdoc ex_doc) ex_sops)) = 20%N /\
+  forest_of_program ex_sops <> [].
+Proof. vm_compute. repeat split; try reflexivity. discriminate. Qed.
